@@ -54,6 +54,10 @@ claimed = {
          "Decides crash-freedom for absent shards (no element of a sparse unit slice is dereferenced without a nil test), agreement between producer and verifier on what a Merkle leaf is (today they disagree: known finding F7), completeness of Unit literals w.r.t. what the validator reads, the validation order (record only after duplicate/origin/Merkle/signature checks; no slice indexed by the unvalidated shard index), root check before unpadding, and that the writer places the message at the offset the varint encoder reported. Bit-exact Reed–Solomon reconstruction for all subsets is not decided.",
          "trusted: go/types, go/ssa; reedsolomon and merkle packages are treated as black boxes",
          "DESIGN.md §5 C19"),
+ "C20": ("field-store ownership and map-origin analysis (destination of maps.Copy / index assignment traced back through φ, parameters and call results to nil/make/maps.Clone); who-may-call; loop-exit analysis of parent-pointer walks; must-hold DNF of overlay lookups; labelled flow for StateDiff.Merge; guarded unsigned subtraction",
+         "Decides immutability of published entries (no in-place store to a chain node or pre-confirmed entry, no mutation of a map reachable from one), CAS-only publication by a single writer, that every walk along parent pointers is bounded by the view's length, that every pending.State reader consults its overlay sections before the head state, that views merge oldest-first over a base at oldest−1 with all seven diff sections, and that the contiguity arithmetic cannot wrap (three reviewed exceptions). It does not decide that concurrent observations equal the model overlay nor the poller protocol.",
+         "trusted: go/types, go/ssa, VTA; unsafe/reflection not followed; three subtraction sites rest on reviewed structural invariants listed in engine/c20.go",
+         "DESIGN.md §5 C20"),
 }
 pending = {}  # id -> reason (properties not claimed)
 props = [json.loads(l) for l in open(os.path.join(V, "properties.jsonl"))]
